@@ -66,6 +66,9 @@ type Case struct {
 	// in-order schedule the implementation effectively executed, and the end state is judged by the property itself
 	Unrealisable   bool  `json:"unrealisable,omitempty"`
 	SchedRequested []int `json:"sched_requested,omitempty"`
+	// DC != nil: a case of the group-map machine (harness/dconc: workers vs maintenance vs flushes), evaluated by
+	// AM.Run.DConcRun
+	DC *dconc.DCase `json:"dcase,omitempty"`
 	// Stat != nil: not a schedule but a run of a statistical engine (stat_test.go) with these parameters
 	Stat *StatParams `json:"stat,omitempty"`
 	// observed
@@ -588,8 +591,14 @@ func TestCheck(t *testing.T) {
 		cases = append(cases, genCases(env, vh.NewRand(env.Seed))...)
 	}
 	hookCases, hookUnreal := 0, 0
+	var dcs []dconc.DCase
 	for i := range cases {
 		c := &cases[i]
+		if c.DC != nil {
+			dcs = append(dcs, *c.DC)
+			run.Add(coqCase(&Case{W: 1}), c, false)
+			continue
+		}
 		if c.Stat != nil {
 			// replay of a statistical violation = rerun of the engine with the stored parameters; the (empty) model
 			// case only keeps the case files well-formed
@@ -640,6 +649,7 @@ func TestCheck(t *testing.T) {
 	if err := run.Finish(strings.TrimSpace(rule)); err != nil {
 		t.Fatal(err)
 	}
+	groupMapPart(t, env, dcs)
 }
 
 // statPlan: the statistical engines of one run.
@@ -674,5 +684,52 @@ func judgeStat(t *testing.T, run *vh.Run, p StatParams) {
 	}
 	if r.Lost > 0 {
 		run.Violate("update-lost", fmt.Sprintf("%s engine: %d label sets missing from their group", p.Engine, r.Lost), Case{Stat: &p, Note: replayNote})
+	}
+}
+
+// groupMapPart: the updates of one alert must also stay in order across group destruction and re-creation, i.e. when
+// ingestion workers race with the maintenance sweep and with flushes over the group map. The schedules of the
+// group-map machine (harness/dconc, Model/DispatchConc.v part 2: maintenance is split into examine / stop /
+// CompareAndDelete, each a schedulable atomic action) run here too: the directed window "re-fire ingested between
+// maintenance's destroyed() check and its delete" in every interleaving, plus random scripts. Judged by dconc's
+// oracles: insert-lost, group-split, and the census after the drain (every RUNNING group is the group the map holds
+// under its key and holds the same versions: running-group-not-in-map).
+func groupMapPart(t *testing.T, env vh.Env, replay []dconc.DCase) {
+	runD := vh.NewRun(env, "AM.Run.DConcRun")
+	runD.Prefix = "d"
+	wrap := func(v any) any {
+		if c, ok := v.(dconc.DCase); ok {
+			return Case{DC: &c}
+		}
+		if c, ok := v.(*dconc.DCase); ok {
+			return Case{DC: c}
+		}
+		return v
+	}
+	add := func(coq []string, js []any, viol []vh.Violation, stats map[string]int, name string) {
+		for i := range coq {
+			runD.Add(coq[i], wrap(js[i]), true)
+		}
+		for _, v := range viol {
+			runD.Violate(v.Key, v.What, wrap(v.Case))
+		}
+		runD.Rep.Distribution[name] = stats
+	}
+	if env.Replay != "" {
+		if len(replay) == 0 {
+			return
+		}
+		for i := range replay {
+			coq, viol, stats := dconc.ReplayT(t, &replay[i])
+			add([]string{coq}, []any{&replay[i]}, viol, stats, "group_map_replay")
+		}
+	} else {
+		coq, js, viol, stats := dconc.RunDirectedT(t)
+		add(coq, js, viol, stats, "group_map_directed_refire_vs_maintenance")
+		coq, js, viol, stats = dconc.RunT(t, env, vh.NewRand(env.Seed+1409), env.N(120, 8))
+		add(coq, js, viol, stats, "group_map_random")
+	}
+	if err := runD.Finish("group-map machine on the real dispatcher: directed re-fire-vs-maintenance window in all interleavings + random scripts"); err != nil {
+		t.Fatal(err)
 	}
 }
